@@ -85,8 +85,30 @@ class StaticUnit:
         repo = frame.Repo()
         obls = []
         for rel, tree in sorted(repo.modules.items()):
-            bad = []
+            bad, soft = [], []
             classnames = {n.name for n in tree.body if isinstance(n, ast.ClassDef)}
+            # module-level names bound to a mutable object (display, or any constructor call) ...
+            modvars = {}
+            for st_ in tree.body:
+                tg, val = None, None
+                if isinstance(st_, ast.Assign) and len(st_.targets) == 1 and isinstance(st_.targets[0], ast.Name):
+                    tg, val = st_.targets[0].id, st_.value
+                elif isinstance(st_, ast.AnnAssign) and isinstance(st_.target, ast.Name) and st_.value is not None:
+                    tg, val = st_.target.id, st_.value
+                if tg and isinstance(val, (ast.Dict, ast.List, ast.Set, ast.DictComp, ast.ListComp, ast.SetComp, ast.Call)):
+                    modvars[tg] = st_.lineno
+            # ... that a function mutates: x[k] = v, del x[k], x[k] += v, x.append / add / update / setdefault / pop / clear / ...
+            MUT = {"append", "extend", "insert", "update", "add", "discard", "remove", "pop", "clear", "sort", "setdefault", "popitem", "reverse", "appendleft", "__setitem__"}
+            for fn_ in [n for n in ast.walk(tree) if isinstance(n, (ast.FunctionDef, ast.AsyncFunctionDef))]:
+                local = {a.arg for a in fn_.args.args + fn_.args.kwonlyargs} | {n.id for n in ast.walk(fn_) if isinstance(n, ast.Name) and isinstance(n.ctx, ast.Store)}
+                for sub in ast.walk(fn_):
+                    nm = None
+                    if isinstance(sub, ast.Subscript) and isinstance(sub.ctx, (ast.Store, ast.Del)) and isinstance(sub.value, ast.Name):
+                        nm = sub.value.id
+                    elif isinstance(sub, ast.Call) and isinstance(sub.func, ast.Attribute) and sub.func.attr in MUT and isinstance(sub.func.value, ast.Name):
+                        nm = sub.func.value.id
+                    if nm in modvars and nm not in local:
+                        soft.append("line %d: module-level object %s (bound at line %d) is mutated inside %s" % (sub.lineno, nm, modvars[nm], fn_.name))
             for node in ast.walk(tree):
                 if isinstance(node, ast.Global):
                     bad.append("line %d: global %s" % (node.lineno, ",".join(node.names)))
@@ -107,6 +129,10 @@ class StaticUnit:
                 continue
             obls.append(dict(name="%s::nostate:%s" % (self.name, rel), base="nostate:%s" % rel, kind="frame", prop=P, line=None, backend="pyvc.frame(syntactic)", time_s=0.0,
                              status="discharged" if not bad else "failed", info={}, model={"sites": "; ".join(bad[:5])} if bad else None))
+            # a module-level object mutated inside a function is shared state across models, but need not change any result (a pure memo table):
+            # auxiliary clause - reported as UNDECIDED, the in-place-mutation and ordered-pair histories of the bounded part decide
+            obls.append(dict(name="%s::nostate(auxiliary):no-module-level-object-is-mutated:%s" % (self.name, rel), base="nostate-aux:%s" % rel, kind="frame", prop=None, line=None,
+                             backend="pyvc.frame(syntactic)", time_s=0.0, status="discharged" if not soft else "failed", info={}, model={"sites": "; ".join(soft[:5])} if soft else None))
         for cname in frame_classes_with_getters(repo):
             for g in ("get_solution", "get_objective_value"):
                 m = repo.method(cname, g)
